@@ -140,6 +140,18 @@ def tucker_event(c: dict) -> dict:
         # measured data kept in 16 bits (every entry fits, the squares do not): the element type is a presentation
         Xd = np.round(Xd * 250)
         X = ttb.tensor(Xd.astype(np.int16))
+    elif (c["seed"] + c["maxiters"]) % 4 == 1:
+        # the magnitude of the data is a presentation (fit, factors and the relation core = X x U' are scale free)
+        Xd = Xd * 2.0 ** -70
+        X = ttb.tensor(Xd)
+    if (c["seed"] + len(shape)) % 2 == 0 and shape[-1] >= 2:
+        # the same values in a tensor that was completed by assignment beyond its first shape (history of the object)
+        head = tuple([slice(None)] * (len(shape) - 1) + [slice(0, shape[-1] - 1)])
+        tail = tuple([slice(None)] * (len(shape) - 1) + [shape[-1] - 1])
+        full = X.data.copy()
+        X = ttb.tensor(np.asfortranarray(full[head]).copy())
+        X[tail] = full[tail]
+        assert X.shape == shape and np.array_equal(X.data, full)
     a = {"shape": list(shape), "ranks": c["ranks"], "maxiters": c["maxiters"], "order": c["order"], "init": c["init"]}
     try:
         shared = None
